@@ -67,3 +67,21 @@ Print Assumptions C03_signature_key_refuted.
 (* non-vacuity of T7: the largest system of the large-index correspondence cases satisfies the bound *)
 Example C03_bound_satisfiable : 0 < 120000 /\ 120000 * 120000 < 2 ^ 63 /\ in_range 120000 120000 (119999, 119999).
 Proof. unfold in_range. simpl. lia. Qed.
+
+(* T11: homogeneity of the assembly in the element values.  For every additive map phi of the values (a change of units
+   x |-> s*x, conjugation, real part, ...), assembling phi(values) with the same map gives phi of every assembled
+   coefficient and the same pattern: the assembly cannot depend on the magnitude of the values. *)
+From EFModel Require Import C03_Homog.
+Theorem C03_assembly_homogeneous :
+  forall (V : Type) (vadd : V -> V -> V) (vzero : V) (phi : V -> V),
+  (forall a b, phi (vadd a b) = vadd (phi a) (phi b)) -> phi vzero = vzero ->
+  forall (m : csrmap) data,
+  c_data V (assemble_with V vadd vzero m (map phi data)) = map phi (c_data V (assemble_with V vadd vzero m data)) /\
+  c_indices V (assemble_with V vadd vzero m (map phi data)) = c_indices V (assemble_with V vadd vzero m data) /\
+  c_indptr V (assemble_with V vadd vzero m (map phi data)) = c_indptr V (assemble_with V vadd vzero m data).
+Proof. intros. now apply assemble_homogeneous. Qed.
+Print Assumptions C03_assembly_homogeneous.
+
+Example C03_homogeneous_example :   (* scaling integers by 2^60 *)
+  (forall a b, 2 ^ 60 * (a + b) = 2 ^ 60 * a + 2 ^ 60 * b) /\ 2 ^ 60 * 0 = 0.
+Proof. split; intros; lia. Qed.
